@@ -13,6 +13,8 @@ import (
 	"strconv"
 	"strings"
 	"time"
+
+	"golang.org/x/tools/go/ssa"
 )
 
 type propertyDef struct {
@@ -40,7 +42,12 @@ func main() {
 	verif := flag.String("verif", "", "verif dir (default: parent of the binary's dir, or /verif)")
 	replay := flag.String("replay", "", "replay file written by a previous run")
 	list := flag.Bool("list", false, "list properties")
+	debugFn := flag.String("debug-exprs", "", "developer aid: print the canonical expressions of all calls/returns in the named function (e.g. cmd:CopyCommand.copyOneFile)")
 	flag.Parse()
+	if *debugFn != "" {
+		debugExprs(*repo, *debugFn)
+		return
+	}
 
 	if *verif == "" {
 		*verif = "/verif"
@@ -191,4 +198,41 @@ func importsOf(w *World, path string) map[string]bool {
 		}
 	}
 	return m
+}
+
+func debugExprs(repo, name string) {
+	w, err := loadWorld(LoadConfig{Dir: repo})
+	if err != nil {
+		fmt.Println(err)
+		return
+	}
+	parts := strings.SplitN(name, ":", 2)
+	pkg := map[string]*ssa.Package{"lib": w.Lib, "cmd": w.Cmd, "main": w.Main, "fb": w.FB}[parts[0]]
+	f := fn(pkg, parts[1])
+	if f == nil {
+		fmt.Println("not found")
+		return
+	}
+	for _, g := range withLiterals(f) {
+		fmt.Println("==", funcName(g))
+		c := newExprCtx(w)
+		eachInstr(g, func(in ssa.Instruction) {
+			switch x := in.(type) {
+			case *ssa.Call:
+				fmt.Printf("  %s: %s\n", w.instrPos(x), c.callExpr(x))
+			case *ssa.Return:
+				var rs []string
+				for i := range x.Results {
+					vals, _ := resultValues(x, i)
+					for _, v := range vals {
+						rs = append(rs, c.expr(v))
+					}
+					rs = append(rs, ";")
+				}
+				fmt.Printf("  %s: return %s\n", w.instrPos(x), strings.Join(rs, " "))
+			case *ssa.Store:
+				fmt.Printf("  %s: store %s <- %s\n", w.instrPos(x), c.expr(x.Addr), c.expr(x.Val))
+			}
+		})
+	}
 }
